@@ -15,6 +15,7 @@ import CaddyModel.C20.Lemmas
 import CaddyModel.C20.Witness
 import CaddyModel.C20.FEncProps
 import CaddyModel.C20.PlumbProps
+import CaddyModel.C20.RemoteAddr
 import CaddyModel.Gen.Redacted
 import CaddyModel.Gen.LogSites
 
